@@ -639,6 +639,7 @@ type vfGridOpts struct {
 	// counted (class) and the case dropped instead of being judged (judging it is C10's business)
 	OnlySuccess bool
 	Label       string
+	Note        string // appended to the description of the case in messages
 }
 
 // vfGridRun executes one grid case. It returns the finished pair when both handshakes succeeded and the
@@ -697,6 +698,9 @@ func vfGridRun(rt *rapid.T, st *vfStats, prop string, o vfGridOpts) *vfGridResul
 	}
 	cerr, serr := pair.Handshake()
 	desc := fmt.Sprintf("%s sni=%s | %s", src, sni, choice)
+	if o.Note != "" {
+		desc += " | " + o.Note
+	}
 	if src.Kind == "custom" || src.Kind == "fingerprinted" {
 		desc += fmt.Sprintf(" [sigalgs %04x groups %04x shares %04x]", p.Offer.SigAlgs, p.Offer.Groups, p.Offer.Shares)
 	}
@@ -858,4 +862,38 @@ func vfGenTLS13Src0(rt *rapid.T) vfClientSrc {
 	src := vfGenRandomizedID(rt, "rnd")
 	src.ID.Weights.TLSVersMax_Set_VersionTLS13 = 1
 	return src
+}
+
+// vfGenCfgKnobs draws settings of the caller's tls.Config that must not keep a fingerprint from completing a handshake
+// with a compliant server: knobs that the applied spec overrides (versions, suites, curves, ALPN list) and knobs that are
+// independent of the hello (tickets disabled, a cold session cache, record sizing, renegotiation mode).
+func vfGenCfgKnobs(rt *rapid.T, label string) (func(*Config), string) {
+	var mods []func(*Config)
+	desc := ""
+	add := func(name string, f func(*Config)) {
+		if rapid.IntRange(0, 4).Draw(rt, label+"_knob_"+name) == 0 {
+			mods = append(mods, f)
+			desc += " " + name
+		}
+	}
+	add("SessionTicketsDisabled", func(c *Config) { c.SessionTicketsDisabled = true })
+	add("ColdSessionCache", func(c *Config) {
+		c.ClientSessionCache = NewLRUClientSessionCache(4)
+		c.PreferSkipResumptionOnNilExtension = true // documented switch for specs without session extensions
+	})
+	add("MaxVersionTLS12", func(c *Config) { c.MaxVersion = VersionTLS12 })
+	add("MinVersionTLS13", func(c *Config) { c.MinVersion = VersionTLS13 })
+	add("NextProtos", func(c *Config) { c.NextProtos = []string{"h2", "http/1.1"} })
+	add("CipherSuites", func(c *Config) { c.CipherSuites = []uint16{TLS_ECDHE_RSA_WITH_AES_128_GCM_SHA256} })
+	add("CurvePreferences", func(c *Config) { c.CurvePreferences = []CurveID{CurveP521} })
+	add("DynamicRecordSizingDisabled", func(c *Config) { c.DynamicRecordSizingDisabled = true })
+	add("RenegotiateOnceAsClient", func(c *Config) { c.Renegotiation = RenegotiateOnceAsClient })
+	if len(mods) == 0 {
+		return nil, ""
+	}
+	return func(c *Config) {
+		for _, f := range mods {
+			f(c)
+		}
+	}, "config knobs:" + desc
 }
